@@ -200,7 +200,7 @@ PROPS = {
         verus=[('u_units', [r'^lemma_unit_dims_bounded_chunk_'])],
         kani=[dict(harness='k_convert_guard', klass='complete', schema=None, family=None, target='Unit::convert_to', timeout=300),
               dict(harness='k_dims_add_sub', klass='complete', schema=['i8'] * 14, family=None, target='UnitDimensions +/-'),
-              dict(harness='k_number_add_sub', klass='complete', schema=None, family=None, target='Number +/-', timeout=600),
+              dict(harness='k_number_add_sub', klass='complete', schema=['u8', 'u8', 'f64', 'f64'], family='number-units', target='Number +/-', timeout=600),
               dict(harness='k_convert_offsets', klass='bounded', bound='both scales fixed to 1.0 (the full formula with symbolic scales does not finish: float division)',
                    schema=None, family=None, target='Unit::convert_to formula, offset part', timeout=900)],
         witness=None,
